@@ -243,7 +243,7 @@ func (x *Exec) makeSlice(fr *Frame, st *State, ins *ssa.MakeSlice) Value {
 	if x.sweep {
 		x.safe(fr, st, And("(<= 0 "+ln+")", "(<= "+ln+" "+cp+")"), "makeslice", ins.Pos(), "make: 0 <= len <= cap")
 	}
-	arr := x.newRef("mkslice")
+	arr := x.newRefIn(fr, st, "mkslice")
 	sv := SliceV{Arr: arr, Off: "0", Len: ln, Cap: cp, Typ: ins.Type()}
 	elem := ins.Type().Underlying().(*types.Slice).Elem()
 	x.zeroElems(st, elem, arr)
@@ -344,7 +344,7 @@ func (x *Exec) appendOp(fr *Frame, st *State, s, xs Value, rt types.Type, xsLen 
 		x.note("append with unsupported argument")
 		return m.freshValue(rt, "app")
 	}
-	arr := x.newRef("append")
+	arr := x.newRefIn(fr, st, "append")
 	nl := m.def("len", SInt, "(+ "+sv.Len+" "+xv.Len+")")
 	cp := m.fresh("cap", SInt)
 	m.assume("(>= " + cp + " " + nl + ")")
@@ -369,7 +369,7 @@ func (x *Exec) appendOp(fr *Frame, st *State, s, xs Value, rt types.Type, xsLen 
 			old := m.def("olda", arrSort(SInt, l.sort), Select(E, sv.Arr))
 			oldx := m.def("oldx", arrSort(SInt, l.sort), Select(E, xv.Arr))
 			m.assume(fmt.Sprintf("(forall ((j Int)) (! (=> (and (<= 0 j) (< j %s)) (= (select %s j) (select %s (+ %s j)))) :pattern ((select %s j))))", sv.Len, fa, old, sv.Off, fa))
-			m.assume(fmt.Sprintf("(forall ((j Int)) (! (=> (and (<= 0 j) (< j %s)) (= (select %s (+ %s j)) (select %s (+ %s j)))) :pattern ((select %s (+ %s j)))))", xv.Len, fa, sv.Len, oldx, xv.Off, fa, sv.Len))
+			m.assume(fmt.Sprintf("(forall ((j Int)) (=> (and (<= 0 j) (< j %s)) (= (select %s (+ %s j)) (select %s (+ %s j)))))", xv.Len, fa, sv.Len, oldx, xv.Off))
 			na = fa
 		}
 		x.setArr(st, name, s2, Store(E, arr, na))
@@ -415,19 +415,23 @@ func (x *Exec) copyStructElems(st *State, elem types.Type, sv, xv SliceV, arr Te
 		}
 		return r
 	}
+	svLen := m.fresh("alen", SInt)
+	m.assume(Eq(svLen, sv.Len))
+	svOff := m.fresh("aoff", SInt)
+	m.assume(Eq(svOff, sv.Off))
 	// The backing array is fresh: nothing has been said about the heap at its element
 	// references yet, so the copy is stated as facts about the current heap there.
 	for _, fa := range fas {
 		A := x.arr(st, fa.name, fa.sort)
 		newRef := refAt(arr, "j", fa.path)
 		m.assume(fmt.Sprintf("(forall ((j Int)) (! (=> (and (<= 0 j) (< j %s)) (= (select %s %s) (select %s %s))) :pattern ((select %s %s))))",
-			sv.Len, A, newRef, A, refAt(sv.Arr, addT(sv.Off, "j"), fa.path), A, newRef))
+			svLen, A, newRef, A, refAt(sv.Arr, addT(svOff, "j"), fa.path), A, newRef))
 		if xv.Len == "1" || xv.Len == IntLit(1) {
-			m.assume(Eq(Select(A, refAt(arr, sv.Len, fa.path)), Select(A, refAt(xv.Arr, xv.Off, fa.path))))
+			m.assume(Eq(Select(A, refAt(arr, svLen, fa.path)), Select(A, refAt(xv.Arr, xv.Off, fa.path))))
 		} else {
-			newRef2 := refAt(arr, "(+ "+sv.Len+" j)", fa.path)
-			m.assume(fmt.Sprintf("(forall ((j Int)) (! (=> (and (<= 0 j) (< j %s)) (= (select %s %s) (select %s %s))) :pattern ((select %s %s))))",
-				xv.Len, A, newRef2, A, refAt(xv.Arr, addT(xv.Off, "j"), fa.path), A, newRef2))
+			newRef2 := refAt(arr, "(+ "+svLen+" j)", fa.path)
+			m.assume(fmt.Sprintf("(forall ((j Int)) (=> (and (<= 0 j) (< j %s)) (= (select %s %s) (select %s %s))))",
+				xv.Len, A, newRef2, A, refAt(xv.Arr, addT(xv.Off, "j"), fa.path)))
 		}
 	}
 }
@@ -619,6 +623,10 @@ func (x *Exec) safe(fr *Frame, st *State, goal Term, kind string, pos token.Pos,
 		return
 	}
 	ps := x.pos(pos)
-	o := &Obligation{Kind: "safe", Fn: x.fnKey, Anchor: kind, Label: ps, PC: st.pc, Goal: goal, Src: what, Pos: ps}
+	label := x.exprTextAt(fr, pos)
+	if label == "" {
+		label = "expr"
+	}
+	o := &Obligation{Kind: "safe", Fn: x.fnKey, Anchor: kind, Label: label, PC: st.pc, Goal: goal, Src: what + ": " + label, Pos: ps}
 	x.addObligation(o)
 }
